@@ -66,6 +66,9 @@ Definition mode_of_kind (k : kind) (m : lmode) : lmode :=
    indentation of what follows *)
 Definition coverable (t : tree) : bool :=
   negb (kind_eqb (kind_of t) KParbreak) && (kind_eqb (kind_of t) KMarkup || is_expr t || is_pattern t).
+(* only the document's own markup is laid out by itself; an inner markup body goes through the element around it *)
+Definition coverable_at (parent : option kind) (t : tree) : bool :=
+  coverable t && (negb (kind_eqb (kind_of t) KMarkup) || match parent with None => true | Some _ => false end).
 
 (* the result also carries the kind of the node's parent (None for the root); the mode travels with the flag
    "some strict ancestor is a Math node" (everything below a Math node is laid out with breaks suppressed).
@@ -73,7 +76,7 @@ Definition coverable (t : tree) : bool :=
 Definition cmode : Type := lmode * bool.
 Fixpoint cover (t : tree) (off : N) (mb : cmode) (parent : option kind) (rs re : N) : option (tree * N * cmode * option kind) :=
   let m' := mode_of_kind (kind_of t) (fst mb) in
-  let self := if (off <=? rs) && (re <=? off + byte_size t) && coverable t then Some (t, off, (m', snd mb), parent) else None in
+  let self := if (off <=? rs) && (re <=? off + byte_size t) && coverable_at parent t then Some (t, off, (m', snd mb), parent) else None in
   match t with
   | Leaf _ _ _ => self
   | Inner k cs _ =>
